@@ -558,6 +558,11 @@ const (
 	CertPlain        // the requested public key itself (not a certificate)
 	CertNil          // a nil ssh.PublicKey
 	CertDup          // the same certificate as the previous slot
+	// certificates over the requested key whose validity window does not contain this host's clock
+	CertFuture   // valid from five minutes from now (the CA's clock runs ahead)
+	CertNoExpiry // ValidBefore = 2^64-1 (no expiry)
+	CertExpired  // expired ten seconds ago
+	CertForever  // ValidAfter = 0, ValidBefore = 2^64-1
 )
 
 const (
@@ -591,12 +596,26 @@ type MockSigner struct {
 }
 
 func (m *MockSigner) issue(pub ssh.PublicKey, req *proto.SSHCertificateSigningRequest) *ssh.Certificate {
+	return m.issueWindow(pub, req, CertGood)
+}
+
+func (m *MockSigner) issueWindow(pub ssh.PublicKey, req *proto.SSHCertificateSigningRequest, kind int) *ssh.Certificate {
 	m.serial++
 	now := uint64(time.Now().Unix())
 	c := &ssh.Certificate{
 		Key: pub, Serial: m.serial, CertType: ssh.UserCert, KeyId: req.KeyId,
 		ValidPrincipals: req.Principals, ValidAfter: now - 60, ValidBefore: now + req.Validity + 60,
 		Permissions: ssh.Permissions{Extensions: req.Extensions},
+	}
+	switch kind {
+	case CertFuture:
+		c.ValidAfter, c.ValidBefore = now+300, now+300+req.Validity
+	case CertNoExpiry:
+		c.ValidBefore = ssh.CertTimeInfinity
+	case CertExpired:
+		c.ValidAfter, c.ValidBefore = now-7200, now-10
+	case CertForever:
+		c.ValidAfter, c.ValidBefore = 0, ssh.CertTimeInfinity
 	}
 	if err := c.SignCert(rand.Reader, m.pool.CA.Signer); err != nil {
 		panic(err)
@@ -649,6 +668,8 @@ func (m *MockSigner) Sign(ctx context.Context, req *proto.SSHCertificateSigningR
 		switch k {
 		case CertGood:
 			c = m.issue(pub, req)
+		case CertFuture, CertNoExpiry, CertExpired, CertForever:
+			c = m.issueWindow(pub, req, k)
 		case CertOther:
 			c = m.issue(m.pool.Foreign[1].Pub, req)
 		case CertPlain:
